@@ -64,6 +64,10 @@ CHECKS = {
          "the type hints of each registered dataclass, must be json.dumps-able, restore to the same type with identical to_json / text / units / tables / image bytes, turn exactly the binary leaves into null without binary, "
          "and the CLI's four JSON modes must print that same JSON.",
          "Floats are finite, dict keys are strings; the absence of escaping for marker keys in plain dicts is a listed design-level known finding.", "DESIGN.md §4 C05"),
+ "C06": ("exploration", "differential testing of extraction across repetitions, fresh interpreters and hash seeds + Hypothesis-drawn observer histories with an idempotence/invariance oracle",
+         "Every fixture and a seeded sample of generated documents of all formats is extracted twice in-process and in fresh interpreters under four PYTHONHASHSEED values; the to_json digests must agree and the input "
+         "buffer must be unchanged. For every input, random sequences of observers (text, units, images incl. partial reads, tables, metadata, JSON forms) must return the same value each time and never change to_json().",
+         "Hash seeds and histories are sampled; failures of extraction are compared by exception type only.", "DESIGN.md §4 C06"),
 }
 NOT_YET = {}
 
